@@ -53,7 +53,7 @@ lane_san() { # name(asan|tsan) scale
   if [ "$name" = asan ]; then flags="-Zsanitizer=address -Cforce-frame-pointers=yes"; extra=""; export ASAN_OPTIONS="halt_on_error=1:detect_leaks=0"
   else flags="-Zsanitizer=thread"; extra="-Zbuild-std"; export TSAN_OPTIONS="halt_on_error=1:report_signal_unsafe=0"; fi
   tdir="$H/target/$name"
-  ( cd "$H" && RUSTFLAGS="$flags" timeout 1800 cargo +nightly build --offline $extra --target x86_64-unknown-linux-gnu --profile verif --bin vcheck --bin vctl --target-dir "$tdir" ) >"$log" 2>&1
+  ( cd "$H" && RUSTFLAGS="$flags" timeout 1800 cargo +nightly build --offline $extra --target x86_64-unknown-linux-gnu --profile verif --bin vcheck --bin vctl --bin vlive --target-dir "$tdir" ) >"$log" 2>&1
   if [ $? -ne 0 ]; then emit "$name" "rustc -Zsanitizer ($name)" unavailable 0 "build failed: $(tail -3 "$log" | tr '\n' ' ')" 0; rm -rf "$tdir"; return; fi
   ( cd "$ROOT" && timeout 1800 "$tdir/x86_64-unknown-linux-gnu/verif/vcheck" "$PROP" --lane "$name" --seed "$SEED" --scale "$scale" ) >>"$log" 2>&1
   local rc=$?
@@ -66,6 +66,33 @@ lane_san() { # name(asan|tsan) scale
   rm -rf "$tdir"   # disk
 }
 
+lane_live_memcheck() { # the sender PROCESS of the live lane under valgrind (the harness itself runs natively)
+  local log="$H/target/lane-live-memcheck-$PROP.log"
+  command -v valgrind >/dev/null || { emit live-memcheck valgrind unavailable 0 "valgrind not installed" 0; return; }
+  ( cd "$ROOT" && timeout 1800 "$H/target/verif/vcheck" "$PROP" --lane live-memcheck --seed "$SEED" --tier "$TIER" ) >"$log" 2>&1
+  local rc=$?
+  if [ $rc -eq 1 ] && grep -q "VIOLATION" "$log"; then emit live-memcheck "valgrind memcheck on the live sender process" violation 1 "$(grep -m1 'violation signature' "$log" | cut -c1-1200)" "$(ops_of live-memcheck)"
+  elif [ $rc -eq 124 ]; then emit live-memcheck "valgrind memcheck on the live sender process" inconclusive 0 "timeout" "$(ops_of live-memcheck)"
+  elif ! grep -q "verdict=" "$log"; then emit live-memcheck "valgrind memcheck on the live sender process" unavailable 0 "$(tail -3 "$log" | tr '\n' ' ')" 0
+  else emit live-memcheck "valgrind memcheck on the live sender process" ok 0 "$(grep -m1 'verdict=' "$log")" "$(ops_of live-memcheck)"; fi
+}
+
+lane_live_san() { # name(asan|tsan): a sanitizer build of vlive driven by the native harness
+  local name="$1" log="$H/target/lane-live-$1-$PROP.log" flags tdir extra
+  if [ "$name" = asan ]; then flags="-Zsanitizer=address -Cforce-frame-pointers=yes"; extra=""; export ASAN_OPTIONS="halt_on_error=1:detect_leaks=0"
+  else flags="-Zsanitizer=thread"; extra="-Zbuild-std"; export TSAN_OPTIONS="halt_on_error=0:report_signal_unsafe=0:suppressions=$ROOT/tools/tsan-live.supp"; fi
+  tdir="$H/target/live-$name"
+  ( cd "$H" && RUSTFLAGS="$flags" timeout 1800 cargo +nightly build --offline $extra --target x86_64-unknown-linux-gnu --profile verif --bin vlive --target-dir "$tdir" ) >"$log" 2>&1
+  if [ $? -ne 0 ]; then emit "live-$name" "rustc -Zsanitizer ($name) build of the live sender process" unavailable 0 "build failed: $(tail -3 "$log" | tr '\n' ' ')" 0; rm -rf "$tdir"; return; fi
+  ( cd "$ROOT" && VERIF_LIVE_BIN="$tdir/x86_64-unknown-linux-gnu/verif/vlive" timeout 1800 "$H/target/verif/vcheck" "$PROP" --lane "live-$name" --seed "$SEED" --tier "$TIER" ) >>"$log" 2>&1
+  local rc=$?
+  if [ $rc -eq 1 ] && grep -q "VIOLATION" "$log"; then emit "live-$name" "rustc -Zsanitizer ($name) build of the live sender process" violation 1 "$(grep -m1 'violation signature' "$log" | cut -c1-1200)" "$(ops_of "live-$name")"
+  elif [ $rc -eq 124 ]; then emit "live-$name" "rustc -Zsanitizer ($name) build of the live sender process" inconclusive 0 "timeout" "$(ops_of "live-$name")"
+  elif ! grep -q "verdict=" "$log"; then emit "live-$name" "rustc -Zsanitizer ($name) build of the live sender process" unavailable 0 "$(tail -3 "$log" | tr '\n' ' ')" 0
+  else emit "live-$name" "rustc -Zsanitizer ($name) build of the live sender process" ok 0 "$(grep -m1 'verdict=' "$log")" "$(ops_of "live-$name")"; fi
+  rm -rf "$tdir"   # disk
+}
+
 case "$TIER:$PROP" in
   quick:C15) lane_miri 1/50 ;;
   thorough:C15) lane_miri 1/300 ;;
@@ -74,9 +101,12 @@ case "$TIER:$PROP" in
   thorough:C20) lane_miri 1/100000; lane_san tsan 1/50 ;;
   thorough:C18) lane_san tsan 1/50 ;;
   quick:C01) lane_memcheck 1/64 ;;
-  thorough:C01) lane_memcheck 1/500; lane_san asan 1/100 ;;
-  thorough:C09) lane_memcheck 1/500; lane_san asan 1/100 ;;
+  quick:C09) lane_live_memcheck ;;
+  thorough:C01) lane_memcheck 1/500; lane_san asan 1/100; lane_live_memcheck ;;
+  thorough:C09) lane_memcheck 1/500; lane_san asan 1/100; lane_live_memcheck; lane_live_san asan ;;
+  thorough:C08) lane_live_san tsan ;;
+  thorough:C07) lane_live_san tsan ;;
   thorough:C14) lane_memcheck 1/1000 ;;
-  thorough:C19) lane_memcheck 1/500 ;;
+  thorough:C19) lane_memcheck 1/500; lane_live_san tsan ;;
 esac
 exit 0
